@@ -144,12 +144,29 @@ impl Observer for ErrObs {
         }
         // exit_on_error toggles (any depth)
         if info.name == EXIT_ON_ERROR {
+            // the mode follows from the ARGUMENT by the language's truth rule (empty, 0, false, no in any letter case
+            // are false), not from what the command says it did; without argument it is a query
+            let new = match info.args.first() {
+                Some(a) => gen::truthy(a),
+                None => self.exit_mode,
+            };
             if let CommandResult::Continue(Some(v)) = result {
-                let new = v == "true";
-                if new != self.exit_mode {
-                    core.probe("exit-on-error-toggled");
+                if (v == "true") != new {
+                    core.violate("exit-on-error-answer", format!("exit_on_error {:?} at instruction index {} answered {:?}; by the truth rule the mode is {}", info.args, info.line, v, new));
                 }
-                self.exit_mode = new;
+            }
+            if new != self.exit_mode {
+                core.probe("exit-on-error-toggled");
+            }
+            self.exit_mode = new;
+        }
+        // trigger_error / assert_error: the error carries the first argument as its message
+        if info.name == "std::error::TriggerError" || info.name == "std::test::AssertError" {
+            if let (CommandResult::Error(m), Some(a)) = (&result, info.args.first()) {
+                // (an injected failure carries the injector's own message)
+                if m != a && !m.starts_with("inj-") {
+                    core.violate("error-message", format!("{} {:?} failed with message {:?}", info.name, info.args, m));
+                }
             }
         }
         // set_error replaces the last error's message (it does not go through on_error and must not touch the mode)
@@ -223,9 +240,12 @@ fn raw_line(rng: &mut Rng, n_arrays: usize) -> String {
         0 | 1 => "pe = get_last_error".to_string(),
         2 | 3 => "pl = get_last_error_line".to_string(),
         4 | 5 => "ps = get_last_error_source".to_string(),
-        6 => format!("exit_on_error {}", rng.pick(&["true", "false", "false", "false"])),
+        6 => format!("exit_on_error {}", rng.pick(&["true", "false", "false", "false", "FALSE", "No", "0", "False", "yes", "\"\""])),
+        // (surplus arguments: the message is the first one)
+        7 if rng.chance(1, 4) => format!("trigger_error {} surplus \"more words\"", msg),
         7 => format!("trigger_error {}", msg),
         8 => format!("x3 = trigger_error {}", msg),
+        9 if rng.chance(1, 4) => format!("assert_error {} surplus", msg),
         9 => format!("assert_error {}", msg),
         10 => format!("x2 = hfail {}", msg),
         11 => "x2 = array_length nohandle".to_string(),
